@@ -32,6 +32,9 @@ from pathlib import Path
 from typing import Any, Callable, Iterable, Optional
 
 ROOT = Path(__file__).resolve().parent.parent
+# Where run-time outputs (evidence, found replays) go. Only the mutant protocol overrides it,
+# so that runs against a scratch tree never touch the committed evidence.
+OUT = Path(os.environ.get("VERIF_OUT", str(ROOT)))
 LEVEL = "exploration"
 N_WORKERS = int(os.environ.get("VERIF_WORKERS", "16"))
 CASE_TIME_LIMIT_S = float(os.environ.get("VERIF_CASE_LIMIT", "30"))
@@ -425,7 +428,7 @@ def load_property_module(prop: str):
 
 
 def write_replay(prop, facet_name, violation, directory="found"):
-    d = ROOT / "replays" / directory
+    d = OUT / "replays" / directory
     d.mkdir(parents=True, exist_ok=True)
     h = case_hash(violation["case"])
     path = d / f"{prop}-{facet_name}-{h}.json"
@@ -618,8 +621,8 @@ def run_property(prop: str, tier: str, seed: int, only_facets=None, scale: float
         "wall_s": round(wall, 2),
         "violations": len(violations),
     }
-    ev_dir = ROOT / "evidence"
-    ev_dir.mkdir(exist_ok=True)
+    ev_dir = OUT / "evidence"
+    ev_dir.mkdir(parents=True, exist_ok=True)
     if not only_facets:
         (ev_dir / f"{prop}.json").write_text(json.dumps(evidence, indent=1, default=_json_default) + "\n")
 
